@@ -116,6 +116,35 @@ def sam_walker(ref_start, cigar):
     return exons, qblocks, runs
 
 
+def _concat_walk(com, ref_start, cig):
+    """the second CIGAR walk of src/common.py: concat_gapless_blocks over the blocks pysam reports (one 0-based half-open block per M/=/X
+    operation), then correct_bam_coords"""
+    blocks, ref = [], ref_start
+    for op, ln in cig:
+        if op in (0, 7, 8):
+            blocks.append((ref, ref + ln))
+        if op in (0, 2, 3, 7, 8):
+            ref += ln
+    return list(com.correct_bam_coords(com.concat_gapless_blocks(blocks, cig)))
+
+
+def _valid_clipping(cig):
+    """S and H at the ends only (H outermost), as the SAM specification demands"""
+    ops = [op for op, _ in cig]
+    core = [i for i, op in enumerate(ops) if op not in (4, 5)]
+    if not core:
+        return False
+    return all(op not in (4, 5) for op in ops[core[0]:core[-1] + 1])
+
+
+def replay_concat(d):
+    com = native.repo_import("src/common.py")
+    cig = [tuple(x) for x in d["inputs"]["cigar"]]
+    got = _concat_walk(com, d["inputs"]["ref_start"], cig)
+    want = sam_walker(d["inputs"]["ref_start"], cig)[0]
+    return got == want, "cigar %s: concat_gapless_blocks -> %s, SAM walker -> %s" % (cig, got, want)
+
+
 def replay_cigar(d):
     com = native.repo_import("src/common.py")
     cig = [tuple(x) for x in d["inputs"]["cigar"]]
@@ -126,7 +155,8 @@ def replay_cigar(d):
 
 @bounded("C16.cigar_exhaustive", ["C16"], note="get_read_blocks against an independent SAM walker on ALL CIGAR strings of length <= 4 "
          "(thorough: <= 6) over the operations {M,I,D,N,S,H,=,X} with lengths {1,2} (thorough: {1,2,3} up to length 5), plus "
-         "seeded random long CIGARs; also checks exons are ordered and non-empty")
+         "seeded random long CIGARs; also checks exons are ordered and non-empty; the second walk, concat_gapless_blocks + correct_bam_coords over the "
+         "blocks pysam reports, gives the same exons on every CIGAR with clipping at the ends only")
 def c16_exhaustive(tier, rng):
     import itertools
     com = native.repo_import("src/common.py")
@@ -148,6 +178,12 @@ def c16_exhaustive(tier, rng):
                     return {"cases": cases, "bound": "length <= %d" % nmax, "violations": [{
                         "obligation": "C16.cigar_exhaustive", "inputs": {"ref_start": 7, "cigar": cig},
                         "observed": str(got), "required": str(want), "replay_call": "contracts.c_cigar:replay_cigar"}]}
+                if _valid_clipping(cig):
+                    got2 = _concat_walk(com, 7, cig)
+                    if got2 != want[0]:
+                        return {"cases": cases, "bound": "length <= %d" % nmax, "violations": [{
+                            "obligation": "C16.cigar_exhaustive.concat_gapless_blocks", "inputs": {"ref_start": 7, "cigar": cig},
+                            "observed": str(got2), "required": str(want[0]), "replay_call": "contracts.c_cigar:replay_concat"}]}
     for _ in range(300 if tier == "quick" else 20000):
         cig = [(rng.choice(ops), rng.randint(1, 300)) for _ in range(rng.randint(5, 40))]
         rs = rng.randint(0, 10 ** 6)
